@@ -51,10 +51,14 @@ def run(ctx):
   ctx.require_actions(['Tokenize', 'Standardize', 'Domain'])
 
   # ---- leg R: tokenizer
-  byte_of = {1: ord('d'), 2: ord('h'), 3: ord('~')}
-  lab = {0: dshake.PAD, 1: dshake.BOS, 2: dshake.EOS, 3: int(dshake.TABLE[ord('d')]), 4: int(dshake.TABLE[ord('h')]), 99: dshake.OOV}
   n = 0
-  for c in rt.json:
+  vocab_bytes = [b for b in range(256) if int(dshake.TABLE[b]) != dshake.OOV]
+  oov_bytes = [ord('~'), 0, 1, 2, 255, 128, 3, 127]     # out-of-vocabulary bytes, among them the values of the reserved labels
+  for ci, c in enumerate(rt.json):
+    # the abstract byte classes are realised by varying concrete bytes (two vocabulary characters, one OOV byte)
+    va, vb = vocab_bytes[(ci * 7) % len(vocab_bytes)], vocab_bytes[(ci * 7 + 31) % len(vocab_bytes)]
+    byte_of = {1: va, 2: vb, 3: oov_bytes[ci % len(oov_bytes)]}
+    lab = {0: dshake.PAD, 1: dshake.BOS, 2: dshake.EOS, 3: int(dshake.TABLE[va]), 4: int(dshake.TABLE[vb]), 99: dshake.OOV}
     snippets = np.array([bytes(byte_of[b] for b in s) for s in c['snippets']], dtype=object)
     cfg = dict(snippets=[bytes(byte_of[b] for b in s) for s in c['snippets']], sequence_length=c['seqlen'])
     total = sum(len(s) + 2 for s in c['snippets'])
@@ -70,6 +74,16 @@ def run(ctx):
     if out['x'].shape != ex_x.shape or not np.array_equal(out['x'], ex_x) or not np.array_equal(out['y'], ex_y):
       ctx.violation('tokenizer:labels', f'preprocess_client gives x={out["x"].tolist()} y={out["y"].tolist()}, the label stream is x={ex_x.tolist()} y={ex_y.tolist()} for {cfg}',
                     replay={'cfg': cfg})
+  # every byte value on its own: in-vocabulary bytes get pairwise distinct labels above the reserved ones, all others OOV
+  seen_labels = {}
+  for b in range(256):
+    out = dshake.preprocess_client(b'cid', {'snippets': np.array([bytes([b])], dtype=object)}, sequence_length=2)
+    n += 1
+    want = int(dshake.TABLE[b])
+    okb = out['x'].tolist() == [[dshake.BOS, want]] and out['y'].tolist() == [[want, dshake.EOS]] and (want == dshake.OOV or (2 < want < dshake.OOV and want not in seen_labels))
+    seen_labels.setdefault(want, b)
+    if not okb:
+      ctx.violation('tokenizer:byte-label', f'snippet bytes([{b}]) gives x={out["x"].tolist()} y={out["y"].tolist()}, expected [[BOS, {want}]] / [[{want}, EOS]]', replay={'byte': b})
   # ---- leg R: standardisation on the centre crop
   for c in rs.json:
     N = c['std'][0]['n']
@@ -175,15 +189,17 @@ def run(ctx):
       same(f'cifar eval preprocessing of a {kind} image, crop {crop} (fedjax vs TensorFlow)', ours, ref)
       ctx.case(key=('cifar-tf', kind, crop), nontrivial=kind != 'random' or crop % 2 == 1)
   img = ((np.arange(32 * 32 * 3).reshape(32, 32, 3) * 7) % 251).astype(np.uint8)
-  for crop in ([1, 5, 16, 24, 31, 32] if big else [5, 24, 32]):
-    for rep in range(4):
-      np.random.seed(ctx.seed * 100 + crop * 7 + rep)
-      out = dcifar.preprocess_image_tff(img[None], crop, crop, distort=True)[0]
+  crops = [(c_, c_) for c_ in ([1, 5, 16, 24, 31, 32] if big else [5, 24, 32])] + [(28, 20), (20, 28), (31, 3)] + ([(8, 30), (32, 16), (1, 32)] if big else [])
+  for crop_h, crop_w in crops:
+    crop = (crop_h, crop_w)
+    for rep in range(4 if crop_h == crop_w else 8):
+      np.random.seed(ctx.seed * 100 + crop_h * 7 + crop_w * 3 + rep)
+      out = dcifar.preprocess_image_tff(img[None], crop_h, crop_w, distort=True)[0]
       found = False
-      if out.shape == (crop, crop, 3):
-        for i in range(33 - crop):
-          for j in range(33 - crop):
-            w = img[i:i + crop, j:j + crop, :].astype(np.float64)
+      if out.shape == (crop_h, crop_w, 3):
+        for i in range(33 - crop_h):
+          for j in range(33 - crop_w):
+            w = img[i:i + crop_h, j:j + crop_w, :].astype(np.float64)
             for cand in (w, w[:, ::-1, :]):
               s = max(cand.std(), 1 / np.sqrt(cand.size))
               if np.allclose((cand - cand.mean()) / s, out, rtol=1e-4, atol=1e-4):
